@@ -167,10 +167,35 @@ fn determinism<C: Check>(c: C, a: &Args) -> i32 {
     for idx in 0..n {
         let h = |c: &C| check::one_run(c, seed, idx, a.tier).map(|(_, _, _, o)| (check::hist_hash(&o), rng::hash_of(&o.choices)));
         let x = h(&c);
+        let mx = ctx::LAST_META.with(|m| m.borrow().clone());
         let y = h(&c);
+        let my = ctx::LAST_META.with(|m| m.borrow().clone());
+        if x != y && std::env::var("WX_ND_DUMP").is_ok() {
+            println!("--- meta {:?}\n--- vs   {:?}", mx, my);
+        }
         if x != y {
             bad += 1;
             println!("NONDETERMINISM property={} run={idx} same-thread {:?} vs {:?}", c.property(), x, y);
+            if std::env::var("WX_ND_DUMP").is_ok() {
+                // debugging aid: both histories side by side
+                let a1 = check::one_run(&*c, seed, idx, a.tier);
+                let m1 = ctx::LAST_META.with(|m| m.borrow().clone());
+                for k in 0..8 {
+                    let b1 = check::one_run(&*c, seed, idx, a.tier);
+                    let m2 = ctx::LAST_META.with(|m| m.borrow().clone());
+                    if let (Some(a1), Some(b1)) = (&a1, &b1) {
+                        if check::hist_hash(&a1.3) != check::hist_hash(&b1.3) || a1.3.choices != b1.3.choices {
+                            println!("--- attempt {k}: first");
+                            for r in &a1.3.hist { println!("{:>5} {:>8} {:?}", r.seq, r.t, r.ev); }
+                            println!("--- second");
+                            for r in &b1.3.hist { println!("{:>5} {:>8} {:?}", r.seq, r.t, r.ev); }
+                            println!("--- choices {:?}\n--- vs {:?}", a1.3.choices, b1.3.choices);
+                            println!("--- meta {:?}\n--- vs {:?}", m1, m2);
+                            break;
+                        }
+                    }
+                }
+            }
         }
         first.push(x.unwrap_or((0, 0)));
     }
